@@ -364,6 +364,45 @@ Proof.
   unfold doc_reqparam, reqobj_outcome. intros ->. destruct r; destruct p; cbn; discriminate.
 Qed.
 
+(* advertised support and a legal placement: the object is honoured *)
+Lemma advertised_legal_honoured r c k p :
+  doc_reqparam c && ro_legal p = true -> reqobj_outcome r c k p = RoHonoured.
+Proof.
+  intro H. apply andb_true_iff in H. destruct H as [Ha Hl].
+  now apply (request_object_honoured r c k p Hl).
+Qed.
+
+(* PKCE parameters that travel inside the request object (or partly there): with request-object support
+   advertised, a legal placement of the other parameters and the EFFECTIVE method (object supersedes query)
+   advertised, tokens are issued exactly when the verifier satisfies that method against the EFFECTIVE challenge *)
+Lemma request_object_pkce_honoured r c k p qm om qc oc sent m rel :
+  doc_reqparam c = true -> ro_legal p = true ->
+  merge qm om = Some m -> string_in m (doc_pkce c) = true -> merge qc oc = Some rel ->
+  ro_pkce_issued r c k p qm om qc oc sent = rel_matches m (if sent then rel else VAbsent) && client_ok c k.
+Proof.
+  intros Ha Hl Hm Hin Hc. unfold ro_pkce_issued.
+  rewrite (advertised_legal_honoured r c k p) by (rewrite Ha, Hl; reflexivity).
+  rewrite Hc, Hm. now apply pkce_honoured.
+Qed.
+
+(* in particular: no downgrade - the challenge replayed as verifier, an unrelated or a missing verifier get nothing *)
+Lemma request_object_pkce_no_downgrade r c k p qm om qc oc sent m rel :
+  doc_reqparam c = true -> ro_legal p = true ->
+  merge qm om = Some m -> string_in m (doc_pkce c) = true -> merge qc oc = Some rel ->
+  (sent = false \/ rel = VPlain \/ rel = VNone \/ rel = VAbsent) ->
+  ro_pkce_issued r c k p qm om qc oc sent = false.
+Proof.
+  intros Ha Hl Hm Hin Hc Hv.
+  rewrite (request_object_pkce_honoured r c k p qm om qc oc sent m rel Ha Hl Hm Hin Hc).
+  destruct (pkce_advertised_methods c m Hin) as [-> _].
+  destruct Hv as [-> | [-> | [-> | ->]]]; try reflexivity; destruct sent; reflexivity.
+Qed.
+
+(* what the object says supersedes the query: with method and challenge in the object the query's play no part *)
+Lemma request_object_supersedes r c k p qm qm' qc qc' m rel sent :
+  ro_pkce_issued r c k p qm (Some m) qc (Some rel) sent = ro_pkce_issued r c k p qm' (Some m) qc' (Some rel) sent.
+Proof. reflexivity. Qed.
+
 Lemma issuer_same r r' c q : doc_issuer r c q = token_issuer r' c q.
 Proof. reflexivity. Qed.
 
@@ -518,7 +557,7 @@ Qed.
 
 Lemma spec_model i : wf i = true -> spec i (model i) = true.
 Proof.
-  destruct i as [r c q probes | r c gs | r c k ch v | r c k pl q | api raw hostless o insecure | asked d | r c q k jwt fls]; cbn [wf model spec].
+  destruct i as [r c q probes | r c gs | r c k ch v | r c k pl q | api raw hostless o insecure | asked d | r c k p qm om qc oc sent | r c q k jwt fls]; cbn [wf model spec].
   - intro H. apply andb_true_iff in H. destruct H as [Hc Hp].
     unfold wf_config in Hc. apply andb_true_iff in Hc. destruct Hc as [Hc _].
     unfold doc_endpoint, doc_issuer, token_issuer.
@@ -549,6 +588,13 @@ Proof.
          rewrite V5, V6 in B; discriminate.
   - intros _. unfold discover_check. rewrite (String.eqb_sym d asked).
     destruct (String.eqb asked d); reflexivity.
+  - intros _. destruct (doc_reqparam c && ro_legal p) eqn:E; [|reflexivity].
+    apply andb_true_iff in E. destruct E as [Ha Hl].
+    destruct (merge qc oc) as [rel|] eqn:Hc; destruct (merge qm om) as [m|] eqn:Hm;
+      try (destruct (ro_pkce_issued r c k p qm om qc oc sent); reflexivity).
+    destruct (string_in m (doc_pkce c)) eqn:Hin; [|destruct (ro_pkce_issued r c k p qm om qc oc sent); reflexivity].
+    rewrite (request_object_pkce_honoured r c k p qm om qc oc sent m rel Ha Hl Hm Hin Hc).
+    destruct (rel_matches m (if sent then rel else VAbsent) && client_ok c k); reflexivity.
   - intros _. unfold doc_issuer. rewrite String.eqb_refl, map_length, Nat.eqb_refl.
     rewrite spec_flows_model. reflexivity.
 Qed.
@@ -611,6 +657,13 @@ Example issuer_validation_nonvacuous :
   /\ validate_issuer "https://op.example.com?" (mkOracle "https" "op.example.com" false) false = IssPath
   /\ validate_issuer "https://op.example.com#" (mkOracle "https" "op.example.com" false) false = IssPath
   /\ validate_issuer "https://:8080" (mkOracle "https" "" false) false = IssMissingHost.
+Proof. repeat split; reflexivity. Qed.
+
+Example request_object_pkce_nonvacuous :
+  ro_pkce_issued RProvider cfg_all CPublic PRedirectInner None (Some "S256") None (Some VS256) true = true
+  /\ ro_pkce_issued RLegacy cfg_all CBasic PStateInner None (Some "S256") None (Some VPlain) true = false
+  /\ ro_pkce_issued RLegacy cfg_all CBasic PBoth (Some "plain") (Some "S256") (Some VPlain) (Some VS256) true = true
+  /\ ro_pkce_issued RLegacy cfg_none CBasic PBoth None (Some "S256") None (Some VS256) true = false.
 Proof. repeat split; reflexivity. Qed.
 
 Example every_flow_nonvacuous :
